@@ -257,8 +257,8 @@ fn lifecycle_case(seed: u64, case: u64) -> Out {
     };
     let be = MonBackend::new();
     be.set_sync_hook(crate::fmt::sync_hook(false));
-    let scenario = case % 7;
-    if scenario == 6 {
+    let scenario = case % 8;
+    if scenario == 6 || scenario == 7 {
         cfg.cache = 0;
     }
     let name = [
@@ -269,11 +269,12 @@ fn lifecycle_case(seed: u64, case: u64) -> Out {
         "check_integrity / compact then drop",
         "read-only database over clean and unclean files",
         "a reader thread keeps reading while the database is dropped",
+        "a reader thread is inside a slow backend read while a commit fails and the database is dropped",
     ][scenario as usize];
     be.lock().name = name.into();
     // in a third of the cases the backend's close() itself reports an error: it must still be the
     // last call the backend sees, and the only close
-    let failing_close = scenario != 3 && scenario != 5 && scenario != 6 && rng.chance(1, 3);
+    let failing_close = scenario != 3 && scenario != 5 && scenario != 6 && scenario != 7 && rng.chance(1, 3);
     let r = guarded(|| -> Result<String, String> {
         let db = cfg.builder().create_with_backend(be.clone()).map_err(|e| e.to_string())?;
         be.lock().fail_close = failing_close;
@@ -421,6 +422,42 @@ fn lifecycle_case(seed: u64, case: u64) -> Out {
                 let n = h.join().map_err(|_| "reader thread panicked".to_string())??;
                 Ok(format!("{n} reads raced the drop"))
             }
+            7 => {
+                // cache size 0 and a backend whose reads take 0.2-1.2 ms: the reader thread is inside
+                // a backend call almost all the time. A commit on this thread gets an injected
+                // failure (the I/O failure is latched), then the database is dropped: close() must
+                // still wait for the read that was made before.
+                let rt = db.begin_read().map_err(|e| e.to_string())?;
+                let stop = std::sync::Arc::new(std::sync::atomic::AtomicBool::new(false));
+                let s2 = stop.clone();
+                let started = std::sync::Arc::new(std::sync::atomic::AtomicBool::new(false));
+                let st2 = started.clone();
+                let h = std::thread::spawn(move || -> Result<u64, String> {
+                    let t = rt.open_table(T).map_err(|e| e.to_string())?;
+                    st2.store(true, std::sync::atomic::Ordering::SeqCst);
+                    let mut n = 0u64;
+                    while !s2.load(std::sync::atomic::Ordering::Relaxed) {
+                        let _ = t.get(&(n % 60)).map(|g| g.map(|v| v.value().len()));
+                        n += 1;
+                    }
+                    Ok(n)
+                });
+                while !started.load(std::sync::atomic::Ordering::SeqCst) && !h.is_finished() {
+                    std::thread::yield_now();
+                }
+                be.set_slow_reads(200 + rng.below(1000));
+                std::thread::sleep(std::time::Duration::from_micros(300 + rng.below(1500)));
+                let mask = *rng.pick(&[K_SYNC, K_WRITE, K_WRITE | K_SYNC | K_SETLEN]);
+                let permanent = rng.bool();
+                be.set_fault(Fault::new(0, mask, permanent));
+                let failed = fill(&db, 5, &mut rng).is_err();
+                drop(db);
+                std::thread::sleep(std::time::Duration::from_micros(500));
+                stop.store(true, std::sync::atomic::Ordering::Relaxed);
+                be.set_slow_reads(0);
+                let n = h.join().map_err(|_| "reader thread panicked".to_string())??;
+                Ok(format!("{n} slow reads raced a {} commit and the drop", if failed { "failed" } else { "successful" }))
+            }
             _ => {
                 let unclean = be.image();
                 drop(db);
@@ -507,7 +544,7 @@ fn history_case(rep: &Report, case: u64) -> Out {
 
 pub fn run(rep: &Report) {
     rep.set_rule(
-        "case = one scenario on a monitoring backend that asserts online: every read/write within the current length, no write into a page reachable from the last durable commit (decoded independently at every sync), no set_len below such a page, no call after close(), close() exactly once per backend, no write/set_len/sync_data from a read-only database. Scenario classes: failing opens over 14 kinds of damaged or unclean images (bad magic, short file with intact magic, truncated/extended file, changed geometry fields, both slots corrupt, repair aborted), open/use/drop with the k-th backend call failing (one-shot or permanent, by call kind), life-cycle orders (database dropped while a writer is live on another thread, writer outliving the database, readers/iterators outliving it, a reader thread racing the drop, reopen cycles, check_integrity/compact, read-only opens over clean and unclean files), and random histories. evaluations = scenarios; distinct_nontrivial = distinct (scenario class, outcome) signatures with at least one backend call",
+        "case = one scenario on a monitoring backend that asserts online: every read/write within the current length, no write into a page reachable from the last durable commit (decoded independently at every sync), no set_len below such a page, no call after close(), close() exactly once per backend, no write/set_len/sync_data from a read-only database. Scenario classes: failing opens over 14 kinds of damaged or unclean images (bad magic, short file with intact magic, truncated/extended file, changed geometry fields, both slots corrupt, repair aborted), open/use/drop with the k-th backend call failing (one-shot or permanent, by call kind), life-cycle orders (database dropped while a writer is live on another thread, writer outliving the database, readers/iterators outliving it, a reader thread racing the drop, a reader inside a slow backend read while a commit fails and the database is dropped (the monitor counts its own in-flight reads: close() may not overlap one), reopen cycles, check_integrity/compact, read-only opens over clean and unclean files), and random histories. evaluations = scenarios; distinct_nontrivial = distinct (scenario class, outcome) signatures with at least one backend call",
     );
     rep.assume("calls are serialized by the monitor's mutex: a call counts as 'after close' if it acquires the monitor after close() did");
     let n = match rep.tier {
